@@ -147,7 +147,23 @@ func c11Handle(c *Ctx, r *Report, rule string) {
 	sc := &Scenario{Name: "retry", MaxVisit: 4, MaxPaths: 20000,
 		Params: map[string]SV{"recv": symRef("h", false), "p0": symRef("down", false)},
 		Heap:   map[string]SV{"up.peers": symSlice("up.peers", 2)},
-		Inline: func(f *ssa.Function) bool { return f.Parent() != nil && fname(f.Parent()) == fnName },
+		Inline: func(f *ssa.Function) bool {
+			if f.Parent() != nil && fname(f.Parent()) == fnName {
+				return true
+			}
+			// helpers of the package that Handle is split into (the retry loop, the deferred cleanup) are part of it;
+			// what the evaluation observes as calls stays a call
+			switch f.Name() {
+			case "dialPeers", "tryAgain", "proxy", "countConn", "countFailure", "Select":
+				return false
+			}
+			for q := f.Parent(); q != nil; q = q.Parent() {
+				if q.Pkg == fn.Pkg && !token.IsExported(q.Name()) {
+					return true
+				}
+			}
+			return f.Pkg != nil && f.Pkg == fn.Pkg && f.Parent() == nil && !token.IsExported(f.Name())
+		},
 	}
 	sc.Call = func(callee string, args []SV, ev *symEval, st *symState) (SV, bool) {
 		switch {
